@@ -312,7 +312,7 @@ let run () =
       | RSharded (i, n) -> FSharded ([cs (Printf.sprintf "r%d" i)], n, usize_max)) !readers in
   let chk () = match !checker with
     | "byteeq" -> Some chk_byteeq | "panic" -> Some chk_panic
-    | "count" -> Some (chk_count false) | "counterr" -> Some (chk_count true) | _ -> None in
+    | "count" -> Some (chk_count false) | "counterr" -> Some (chk_count true) | "countnf" -> Some chk_count_nf | _ -> None in
   let cfg h = { s_handle = n_of_int h; s_writer = front_w (); s_readers = fronts_r (); s_checker = chk ();
                 s_autosync = !autosync; s_systmp = [cs "systmp"] } in
   let par_lines : (int * string) list ref = ref [] in
@@ -527,6 +527,10 @@ let run () =
                let pops = List.length (List.filter (fun (t, _) -> t = 3) ms) in
                let old = (match List.filter (fun (t, _) -> t = 2) ms with (_, [d]) :: _ -> show d | _ -> "-") in
                Printf.sprintf "%s hit=%s pop_calls=%d old=%s" (file_line (match r with Ok fd -> Ok (Some fd) | Err e -> Err e | Panic -> Panic)) hit pops old
+             | "rm" ->
+               let (r, e) = run_prog (ensure_file_removed (path_of_string f.(3))) o in
+               evs_all := e;
+               (match r with Ok _ -> "OkUnit" | Err e -> io_line e | Panic -> "Panic")
              | "prune" ->
                let (r, e) = run_prog (prune (path_of_string f.(3)) (n_of_string f.(4))) o in
                evs_all := e;
